@@ -1,5 +1,5 @@
 PROP = {
-    "thm": "Umya.Thm.C05",
+    "thm": ["Umya.Thm.C05", "Umya.Thm.C05Codec"],
     "harness": "c05",
     "level": "proof",
     "stateful": True,
@@ -10,44 +10,70 @@ PROP = {
                   "different effective styles never share an xf index (C05_no_merge, induction over the list, no size bound), setting a style again changes nothing "
                   "(C05_no_growth, C05_no_growth_resave), and expand(merge(sort columns)) = sort columns (C05_cols). The model is tied to the code by diffing, for every "
                   "generated workbook, the xf index of every cell/row/column run, the component ids and apply flags of every <xf>, the custom numFmts and all table sizes "
-                  "read from the written styles.xml / sheet1.xml against the model's prediction. The per-attribute XML codecs are checked by the harness oracle only.",
+                  "read from the written styles.xml / sheet1.xml against the model's prediction. "
+                  "The per-attribute XML codecs are modelled concretely (Model/StyleCodec.lean: write_to / set_attributes of colour, font and its eleven children, pattern / gradient fill, "
+                  "border edges and <border>, alignment, protection, numFmt, <row>, <col> on element trees) and proved: for every value in range read(write x) = some (norm x) with an explicit norm, "
+                  "norm idempotent, and eff(norm x) = eff x for every value the public setters produce (C05_color/font/fill/border/alignment/protection/numfmt/row/column_codec; every enum table "
+                  "inverted by its FromStr: C05_enum_codec); no codec changes an attribute any more (the former counter-example, fill none + fgColor reloading as solid, was repaired by 90daeac: the model reader follows, C05_fill_codec holds without exception and C05_pattern_fill_codec_exact gives read(write p) = p for pattern fills whose colours carry an attribute). The concrete codecs are a value of the "
+                  "parameter type of the interning theorems (C05_codecs_instantiate), giving the composite C05_effective_formatting_survives with no codec hypothesis. "
+                  "The codec model is tied on every run by the `codec` requests: the real <font>/<fill>/<border>/<alignment>/<protection>/<numFmt>/<row>/<col> element of a saved workbook, lexed by the "
+                  "independent XML reader, must be tree-equal to write x, and read of the model on the real element must show the getters of the reloaded workbook; the enum tables are regenerated from "
+                  "the source and proved equal to the model's (C05_enum_tables_match_source).",
     "level_note": "Trusted: Lean kernel + 3 standard axioms; the hand model as exercised by the correspondence stream; md5 assumed injective where it is still used as a key "
                   "(number-format code, column width/hidden/bestFit) - a hypothesis of the theorems (hkey), instantiated by the identity in the driver; HashMap<u32,NumberingFormat> "
                   "modelled as an association list with distinct keys; f64 fields are tokens (Rust shortest decimal text), so NaN and -0 are outside the model; "
-                  "the XML codecs of font/fill/border/alignment/protection/format code are parameters with a round-trip-up-to-normalisation hypothesis.",
+                  "the codec theorems are about element trees (attribute values after unescaping; the attribute text channel is C02_attr_channel / C03_attr), with the reader modelled on the events of a tree "
+                  "serialised the way the writers serialise (empty_flag = Event::Empty); a float attribute is a token and reading it is the parameter cf (parse-or-zero then display), "
+                  "float texts being the fixpoints of cf; md5 taken injective in Borders::write_to's comparison of the vertical / horizontal edge with Border::default(); "
+                  "in C05_codecs_instantiate a fill carrying a gradient (one opaque token in Model/Style.lean) and token records no Rust struct can hold are left unchanged by the instantiated codecs "
+                  "(the typed gradient codec is proved separately inside C05_fill_codec).",
     "expect_theorems": ["C05_tables_match_source", "C05_init", "C05_get_set", "C05_reload", "C05_get_set_reload", "C05_get_set_all", "C05_no_merge", "C05_no_growth", "C05_no_growth_resave", "C05_cols",
-                        "C05_col_key_injective", "C05_pattern_fill_reload", "C05_pattern_fill_no_merge", "C05_setter_auto_solid", "C05_font_key_fails", "C05_color_key_fails", "C05_key_lookup_merges_fails", "C05_eq_lookup_separates"],
+                        "C05_col_key_injective", "C05_pattern_fill_reload", "C05_pattern_fill_no_merge", "C05_setter_auto_solid", "C05_font_key_fails", "C05_color_key_fails", "C05_key_lookup_merges_fails", "C05_eq_lookup_separates",
+                        "C05_enum_codec", "C05_color_codec", "C05_color_set_argb", "C05_font_codec", "C05_fill_codec", "C05_pattern_fill_codec_exact", "C05_border_codec",
+                        "C05_alignment_codec", "C05_protection_codec", "C05_numfmt_codec", "C05_row_codec", "C05_column_codec", "C05_enum_tables_match_source",
+                        "C05_codecs_instantiate", "C05_effective_formatting_survives"],
     "rule": "one case = one workbook (reset, cell/row/col assignments, save). Streams: (1) every adjacent-field collision pair of the concatenated keys of the unfixed code "
             "(font name|size, size|family, name 'empty!!' vs none, colour argb|tint inside font / pattern fill / border edge / gradient stop, colour none vs argb 'empty!!'), each pair "
             "alone in both orders and all together; (2) one workbook per component with every attribute varied one at a time around a base value, all near-duplicates coexisting "
             "(font: 11 attributes incl. all underline/scheme/vertAlign values and 12 colour forms; fill: all 19 patterns x fg/bg present/absent, indexed/theme/tint colours, gradients; "
             "borders: 7 edges x 14 line styles + colours + diagonal flags; alignment: all horizontal/vertical values, wrap, rotation; protection; all built-in number-format ids and 18 codes); "
             "(3) random workbooks with 1..600 distinct styles (60% of them one-attribute mutations of an earlier style of the same workbook) on cells, plus rows (height/hidden) and column runs "
-            "(equal / one attribute different / other style, inserted unsorted); (4) column-run-only workbooks. quick: 30 random + 6 column workbooks, thorough: 1450 + 40. "
+            "(equal / one attribute different / other style, inserted unsorted); (4) column-run-only workbooks; (5) codec requests: every style of the attribute lists of (2) alone on cell A1 of a new workbook, "
+            "30 boundary styles (i32 / u32 limits, XML-special characters and blanks in font names and format codes, colours in all forms with and without tint, tint-only and empty colours, "
+            "pattern none/unset with a foreground colour, gradients), random full styles (60 / 600), 18 rows (height incl. 0, customHeight, hidden, thickBot, descent, with / without style) and "
+            "13 columns (width, hidden, bestFit, style): each yields one derived `codecx` line carrying the real styles.xml and sheet1.xml. quick: 150 random + 6 column workbooks + 514 codec cases, thorough: 1450 + 40 + 1054. "
             "non-trivial = an assignment that was applied or a save that produced a dump; distinct = distinct request line",
     "trusted_base": TB_COMMON + [
         "md5 injectivity on number-format codes and on column key texts (hypothesis hkey of the theorems; the driver uses the identity)",
         "std HashMap semantics for NumberingFormats (association list with distinct keys in the model)",
         "Rust f64 Display/FromStr round trip (widths, heights, sizes, tints travel as shortest decimal text)",
         "quick-xml + zip used by the harness' independent scan of styles.xml / sheet1.xml",
+        "tools/extract_tables.py for the seven enum string tables (regenerated every run, proved equal to the model's)",
+        "the XML lexer of Spec/XmlLex.lean, executed by the driver on the real styles.xml / sheet1.xml of every codec case",
     ],
     "assumptions": [
         "workbooks start from new_file() (cellStyleXfs empty, style sheet = set_defalut_value); for a loaded foreign workbook the invariant Inv is a hypothesis",
         "styles are built through the public setters; a built-in number format carries the code of its id (Style.WF)",
         "float attributes are finite and not -0 (token equality = f64 equality there); NaN would make == fail and every use append a new entry",
-        "font names / format codes without XML-special characters other than quotes in format codes (attribute unescaping on read is defect 9 of DESIGN section 4, owned by C03/C04/C06)",
+        "interning stream: font names / format codes without XML-special characters other than quotes in format codes; the codec stream sends & < > \" ' tab, line feed and blanks in font names and format codes "
+        "(they survive since fix ddd0f34; the codec theorems are stated on unescaped attribute values)",
+        "codec theorems: numbers fit their Rust types (u32 / i32) and float fields hold float texts (Range predicates); colours are in one of the forms set_argb / set_indexed / set_theme_index produce "
+        "(OneForm); a vertical / horizontal border edge does not carry the colour text `empty!!` (it hashes like no colour; NoMark); a fill has a pattern fill or a gradient, not both",
         "argb values given to set_argb are not among the 56 indexed colours unless stated (the driver mirrors set_argb's conversion to indexed)",
         "built-in ids with identical format codes (27/36/50/57, 28/29/51/54/58, ...) are compared up to the smallest id; set_format_code picks one of them by hash-map order",
     ],
     "partial_clauses": [
-        "the per-attribute XML codecs of font / fill / border / alignment / protection / numFmt code are parameters of the Lean theorems (round trip = an idempotent normalisation `norm`); "
-        "that `norm` preserves the effective value of each of the ~60 attributes is established by the harness oracle only (each attribute varied one at a time, reload, compare through the public getters)",
-        "the pattern-fill codec is also modelled concretely (after fix 90daeac: the reader no longer turns none/unset + fgColor into solid): C05_pattern_fill_reload / "
-        "C05_pattern_fill_no_merge hold for every pattern fill; that model of write_to / set_attributes is tied to the code by the save/reload oracle only (not by the driver's dump)",
-        "row height / customHeight / hidden and the `s` attribute of rows are in the model and in the correspondence dump; their survival after reload is checked by the oracle, no Lean theorem",
-        "the differential-format table (dxfs, conditional formatting) is still searched by get_hash_code and is outside this property",
+        "the pattern-fill codec exists twice, both after fix 90daeac (the reader stores fgColor without auto_set_pattern_type): on token records in Umya/Model/Style.lean (C05_pattern_fill_reload / "
+        "C05_pattern_fill_no_merge, every pattern fill) and on element trees in Umya/Model/StyleCodec.lean (C05_fill_codec: read(write f) = norm f where norm only puts colours into their written form and drops a "
+        "colour without attributes; C05_pattern_fill_codec_exact: the identity otherwise); pattern_views_agree relates the pattern type of the two views; the tree-level one is the one tied to the real XML on every run",
+        "the codec theorems are about element trees and the reader's behaviour on trees serialised the way the writers serialise; bytes -> tree (tag syntax of quick-xml, Event::Empty vs Start/End for "
+        "a foreign file) is validated per file by the codec requests, not proved",
+        "C05_effective_formatting_survives speaks of the effective attributes of the token records of the interning model decoded to typed values; a gradient fill is one opaque token there and is outside "
+        "the decoded view (its codec is proved at the typed level only); row / column attributes have their own codec theorems (C05_row_codec, C05_column_codec, with C05_cols for the runs) and are not "
+        "part of the composite",
+        "the differential-format table (dxfs, conditional formatting; looked up by equality since fix 0f4b522) is outside this property and outside the codec model",
     ],
-    "technique": "Lean 4: find-or-append interning lemmas, style-sheet invariant by induction over unbounded set_style sequences, column merge/expand inverse; differential dump of styles.xml/sheet XML + save/reload oracle",
+    "technique": "Lean 4: find-or-append interning lemmas, style-sheet invariant by induction over unbounded set_style sequences, column merge/expand inverse; concrete XML codec model of every style component with read∘write = norm theorems; differential dump of styles.xml/sheet XML, tree equality of real elements with the model writer, model reader on real elements vs reloaded getters, save/reload oracle",
     "timeout_quick": 900,
     "timeout_thorough": 3000,
 }
